@@ -5,7 +5,7 @@ CONSTANTS
   Comps <- AllComps
   Intervals <- Iv4
   MaxActs = 8
-  Cons <- Cons3
+  Cons <- Cons1
   MaxSets = 2
 INVARIANT SameLength
 INVARIANT SameStep
